@@ -90,8 +90,12 @@ func helperMay(ins ssa.Instruction, pred func(ssa.Instruction) bool) bool {
 
 // feasibleBlocks: the blocks of callee reachable under the valuation of the row being evaluated
 // (nil: no valuation, everything counts).
+// throughNoPrune: while the constructs present in a function are being counted (not reached), the
+// valuation does not restrict what counts inside a new function either.
+var throughNoPrune bool
+
 func feasibleBlocks(callee *ssa.Function, args []ssa.Value) map[*ssa.BasicBlock]bool {
-	if theE1 == nil || len(curLits) == 0 {
+	if theE1 == nil || len(curLits) == 0 || throughNoPrune {
 		return nil
 	}
 	seen := map[*ssa.BasicBlock]bool{callee.Blocks[0]: true}
